@@ -1140,9 +1140,17 @@ def create_sample_primitive(config: SamplerConfig):
             lowering_msg, binding_context
         )
 
+        def jvp_rule(primals, tangents, **params):
+            # The default rule would differentiate through the staged keyless
+            # sampler and inline it together with the key baked into it: the
+            # site would silently vanish from the program before lowering (or
+            # `seed`) ever sees it.
+            raise lowering_exception
+
         # Bind to the primitive
         return initial_style_bind(
             config.primitive,
+            jvp=jvp_rule,
             keyful_sampler=config.keyful_sampler,
             flat_keyful_sampler=flat_keyful_sampler,
             sample_shape=config.sample_shape,
